@@ -544,7 +544,9 @@ fn pad_cloud(rng: &mut Rng, ps: &mut Pads, col: usize, row: usize, k: usize, b: 
             continue;
         }
         let slot = &mut ps[col][r as usize];
-        let sig = slot.get_or_insert_with(|| (0..len).map(|_| if noise > 0.0 { noise * (2.0 * rng.f64_unit() - 1.0) } else { 0.0 }).collect());
+        // `noise < 0`: a constant offset of `|noise|` on every sample instead of noise (the residual
+        // of a fitted pulse then stays positive: no dust)
+        let sig = slot.get_or_insert_with(|| (0..len).map(|_| if noise > 0.0 { noise * (2.0 * rng.f64_unit() - 1.0) } else { -noise }).collect());
         let a = if jitter { b * f * (0.9 + 0.2 * rng.f64_unit()) } else { b * f };
         pulse_into(sig, k, a, &t.pad_resp);
     }
@@ -604,18 +606,21 @@ fn hit_event(rng: &mut Rng, wires: &[usize], noise: f64, differing_lengths: bool
 /// cloud at the track's height. No cross-talk, no digitisation: a cheap event that reconstructs.
 /// `len` is the waveform length (the drift range is ≈ 270 bins of 16 ns).
 #[allow(clippy::too_many_arguments)]
-fn pulse_tracks(rng: &mut Rng, n_tracks: usize, vertex: [f64; 3], step: usize, len: usize, crosstalk: bool, equal_amplitudes: bool, noise: f64) -> (Wires, Box<Pads>) {
+fn pulse_tracks(rng: &mut Rng, n_tracks: usize, vertex: [f64; 3], step: usize, len: usize, crosstalk: bool, equal_amplitudes: bool, noise: f64, cap: Option<usize>, dz: f64) -> (Wires, Box<Pads>) {
     let t = tables();
     let mut direct: HashMap<usize, Vec<f64>> = HashMap::new();
     let mut ps = empty_pads();
     let pitch = std::f64::consts::TAU / TPC_ANODE_WIRES as f64;
-    for _ in 0..n_tracks {
+    for track in 0..n_tracks {
+        // track `i` starts `i * dz` above the common vertex (`dz = 0`: one vertex)
+        let vertex = [vertex[0], vertex[1], vertex[2] + track as f64 * dz];
         let dir = std::f64::consts::TAU * rng.f64_unit();
         let slope = 1.2 * (rng.f64_unit() - 0.5); // dz/dr
         let curv = 0.6 * (rng.f64_unit() - 0.5); // rad per metre of radius: a gentle bend
         let amp = if equal_amplitudes { 500.0 } else { 200.0 + 1800.0 * rng.f64_unit() };
         let mut k = 3usize;
-        while k + 20 < len {
+        let mut placed = 0usize;
+        while k + 20 < len && cap.map(|c| placed < c).unwrap_or(true) {
             // radius and Lorentz angle of time bin k at this height, from the library's own lookup
             let probe = |z: f64| {
                 let mut a = alpha_g_physics::Avalanche { t: Default::default(), phi: Default::default(), z: Default::default(), wire_amplitude: 1.0, pad_amplitude: 1.0 };
@@ -645,6 +650,7 @@ fn pulse_tracks(rng: &mut Rng, n_tracks: usize, vertex: [f64; 3], step: usize, l
             let frac = ((z - zc) / 0.004).clamp(-0.5, 0.5);
             let shape = [0.45 - 0.3 * frac, 1.0, 0.45 + 0.3 * frac];
             pad_cloud(rng, &mut ps, col_of(w), row, k, 5.0 * amp, len, noise, &shape, false);
+            placed += 1;
             k += step;
         }
     }
@@ -677,6 +683,10 @@ fn pulse_tracks(rng: &mut Rng, n_tracks: usize, vertex: [f64; 3], step: usize, l
         if noise > 0.0 {
             for x in sig.iter_mut() {
                 *x += noise * (2.0 * rng.f64_unit() - 1.0);
+            }
+        } else if noise < 0.0 {
+            for x in sig.iter_mut() {
+                *x -= noise;
             }
         }
         ws[w] = Some(sig);
@@ -783,17 +793,25 @@ pub fn generate(s: &mut Session, thorough: bool) -> bool {
     s.notes.insert("sim_events_decoded".into(), sim_decoded.into());
 
     // (i') cheap reconstructing events: isolated pulses along 1–4 tracks from a common vertex
-    for i in 0..(12 * mult) {
+    for i in 0..(10 * mult) {
         let n_tracks = 1 + i % 4;
         let vertex = [0.01 * (rng.f64_unit() - 0.5), 0.01 * (rng.f64_unit() - 0.5), 1.2 * (rng.f64_unit() - 0.5)];
         let step = *rng.pick(&[6usize, 8, 10, 14]);
         // noise-free pulses leave a residual of pure rounding noise (much dust); a little noise
         // on every channel gives the residual a sign
         let noise = [0.0, 0.3, 1.0][(i / 4) % 3];
-        let (ws, ps) = pulse_tracks(&mut rng, n_tracks, vertex, step, 300, i % 2 == 1, false, noise);
+        let (ws, ps) = pulse_tracks(&mut rng, n_tracks, vertex, step, 300, i % 2 == 1, false, noise, None, 0.0);
         add_event(s, "pulse-tracks", &ws, &ps, true, i % 3 == 0, &mut stats);
     }
-
+    // (i'') the minimum cluster size: two tracks of exactly 12, 13, 14 avalanches each (a constant
+    // offset of +1e-3 on every sample instead of noise, so that no dust point joins them)
+    for rep in 0..mult {
+        for cap in [9usize, 10, 11, 12, 13, 14] {
+            let vertex = [0.0, 0.0, 0.6 * (rng.f64_unit() - 0.5)];
+            let (ws, ps) = pulse_tracks(&mut rng, 2, vertex, 14, 300, rep % 2 == 1, false, 0.0, Some(cap), 0.0);
+            add_event(s, "min-cluster", &ws, &ps, true, true, &mut stats);
+        }
+    }
     // (ii) the random / degenerate signal generators of c13b.rs
     for len in [1usize, 2, 5, 9, 17, 33] {
         let start = match len % 4 {
@@ -833,6 +851,23 @@ pub fn generate(s: &mut Session, thorough: bool) -> bool {
         ws[77] = Some(v);
         pad_cloud(&mut rng, &mut ps, col_of(77), 300, 40, 3000.0, 120, 0.0, &[0.45, 1.0, 0.35], false);
         add_event(s, "degenerate", &ws, &ps, true, true, &mut stats);
+        // peaks on the first / last pad rows (rows 0..=2 and 573..=575), hits in the first and last
+        // time bins of the waveform
+        {
+            let mut ws = empty_wires();
+            let mut ps = empty_pads();
+            let len = 64;
+            let w = (verif_pad_column_to_wires(31).start + 7) % TPC_ANODE_WIRES;
+            let mut v = vec![0.0; len];
+            pulse_into(&mut v, 2, 300.0, &t.wire_resp);
+            pulse_into(&mut v, 30, 500.0, &t.wire_resp);
+            pulse_into(&mut v, len - 6, 800.0, &t.wire_resp);
+            ws[w] = Some(v);
+            for (row, k) in [(1usize, 2usize), (TPC_PAD_ROWS - 2, 30), (TPC_PAD_ROWS - 2, len - 6)] {
+                pad_cloud(&mut rng, &mut ps, 31, row, k, 2000.0, len, 0.0, &[0.4, 1.0, 0.3], false);
+            }
+            add_event(s, "degenerate", &ws, &ps, true, true, &mut stats);
+        }
         // wires without pads, pads without wires
         let (w2, _) = hit_event(&mut rng, &block(10, 6), 0.0, false, true);
         add_event(s, "degenerate", &w2, &empty_pads(), true, false, &mut stats);
